@@ -140,6 +140,98 @@ theorem tauEnergyBatch_error (t : CdfTable α) (evs : List (Ev α)) (e : Ev α) 
   obtain ⟨err, h⟩ := this
   exact ⟨err, by rw [h]; rfl⟩
 
+/-- the per-event exit-probability value before exponentiation, as the per-event model computes it -/
+theorem pexitCall_unfold (t : PexitTable α) (b le : α) : (pexitCall t b le).2 =
+    (if ltb (t.beta.getD (t.beta.length - 1) 0) b then Except.ok (pow 10 (log10 eps32))
+     else
+      if Model.Interp.outOfBounds t.logE le || Model.Interp.outOfBounds t.beta (if ltb b (t.beta.getD 0 0) then t.beta.getD 0 0 else b)
+        then Except.error Err.outOfBounds
+      else Except.ok (pow 10 (bilinear t.logE t.beta ((floorTable t.data).map fun r => r.map log10) le
+        (if ltb b (t.beta.getD 0 0) then t.beta.getD 0 0 else b)))) := rfl
+
+/-- **The batched exit-probability stage equals the per-event state machine, event by event**, for every mix of
+in-range, below-range and above-range angles (any scalar type), and leaves the same (floored) table. -/
+theorem pexitBatch_pointwise (t : PexitTable α) (evs : List (Pv α)) (P : Pv α → α)
+    (hex : ∀ e ∈ evs, ¬ (ltb e.b (t.beta.getD 0 0) = true ∧ ltb (t.beta.getD (t.beta.length - 1) 0) e.b = true))
+    (hok : ∀ e ∈ evs, (pexitCall t e.b e.le).2 = .ok (P e)) :
+    (pexitBatch t evs).2 = .ok (evs.map P) ∧ (pexitBatch t evs).1 = { t with data := floorTable t.data } := by
+  refine ⟨?_, rfl⟩
+  generalize hbmin : t.beta.getD 0 0 = bmin at *
+  generalize hbmax : t.beta.getD (t.beta.length - 1) 0 = bmax at *
+  set lg := (floorTable t.data).map fun r => r.map log10 with hlg
+  have hv : pexitInterpBatch t lg (select (evs.map (pValid bmin bmax)) evs)
+      = .ok ((select (evs.map (pValid bmin bmax)) evs).map fun e => bilinear t.logE t.beta lg e.le e.b) := by
+    unfold pexitInterpBatch
+    apply allOk_map_ok
+    intro e he
+    obtain ⟨hm, hp⟩ := mem_select (pValid bmin bmax) evs e he
+    have h := hok e hm
+    simp only [pValid, pLow, pHigh, Bool.and_eq_true, Bool.not_eq_true'] at hp
+    rw [pexitCall_unfold] at h
+    simp only [hbmin, hbmax, hp.1, hp.2, Bool.false_eq_true, if_false] at h
+    by_cases hoob : (Model.Interp.outOfBounds t.logE e.le || Model.Interp.outOfBounds t.beta e.b) = true
+    · rw [if_pos hoob] at h; cases h
+    · rw [if_neg hoob]
+  have hl : pexitInterpBatch t lg ((select (evs.map (pLow bmin)) evs).map fun e => { e with b := bmin })
+      = .ok (((select (evs.map (pLow bmin)) evs).map fun e => ({ e with b := bmin } : Pv α)).map
+          fun e => bilinear t.logE t.beta lg e.le e.b) := by
+    unfold pexitInterpBatch
+    apply allOk_map_ok
+    intro e he
+    obtain ⟨e', he', rfl⟩ := List.mem_map.mp he
+    obtain ⟨hm, hp⟩ := mem_select (pLow bmin) evs e' he'
+    have h := hok e' hm
+    have hx := hex e' hm
+    simp only [pLow] at hp
+    have hhi : ltb bmax e'.b = false := by
+      cases hh : ltb bmax e'.b
+      · rfl
+      · exact absurd ⟨hp, hh⟩ hx
+    rw [pexitCall_unfold] at h
+    simp only [hbmin, hbmax, hp, hhi, Bool.false_eq_true, if_false, if_true] at h
+    by_cases hoob : (Model.Interp.outOfBounds t.logE e'.le || Model.Interp.outOfBounds t.beta bmin) = true
+    · rw [if_pos hoob] at h; cases h
+    · simp only [hoob, Bool.false_eq_true, if_false]
+  unfold pexitBatch
+  simp only [hbmin, hbmax]
+  rw [← hlg, hv]
+  simp only [Except.bind]
+  rw [hl]
+  simp only [Except.bind]
+  congr 1
+  unfold pexitAssemble
+  simp only [List.map_map]
+  rw [← select_map_comm (pValid bmin bmax) (fun e => bilinear t.logE t.beta lg e.le e.b) evs,
+    scatter_select_map (pValid bmin bmax) (fun _ => 0) _ evs]
+  have e2 : (select (evs.map (pLow bmin)) evs).map ((fun e => bilinear t.logE t.beta lg e.le e.b) ∘ fun e => ({ e with b := bmin } : Pv α))
+      = select (evs.map (pLow bmin)) (evs.map fun e => bilinear t.logE t.beta lg e.le bmin) := by
+    rw [select_map_comm (pLow bmin) _ evs]; rfl
+  rw [e2, scatter_select_map (pLow bmin) _ _ evs]
+  rw [← select_map_comm (pHigh bmax) (fun _ => (log10 eps32 : α)) evs, scatter_select_map (pHigh bmax) _ (fun _ => log10 eps32) evs]
+  rw [List.map_map]
+  apply List.map_congr_left
+  intro e he
+  have h := hok e he
+  have hx := hex e he
+  rw [pexitCall_unfold] at h
+  simp only [hbmin, hbmax, ← hlg] at h
+  simp only [Function.comp]
+  cases hlo : ltb e.b bmin <;> cases hhi : ltb bmax e.b
+  · simp only [hlo, hhi, Bool.false_eq_true, if_false] at h
+    simp only [pValid, pLow, pHigh, hlo, hhi, Bool.false_eq_true, if_false, Bool.not_false, Bool.and_self, if_true]
+    by_cases hoob : (Model.Interp.outOfBounds t.logE e.le || Model.Interp.outOfBounds t.beta e.b) = true
+    · rw [if_pos hoob] at h; cases h
+    · rw [if_neg hoob] at h; injection h
+  · simp only [hhi, if_true] at h
+    simp only [pHigh, hhi, if_true]
+    injection h
+  · simp only [hlo, hhi, Bool.false_eq_true, if_false, if_true] at h
+    simp only [pValid, pLow, pHigh, hlo, hhi, Bool.false_eq_true, if_false, if_true]
+    by_cases hoob : (Model.Interp.outOfBounds t.logE e.le || Model.Interp.outOfBounds t.beta bmin) = true
+    · rw [if_pos hoob] at h; cases h
+    · rw [if_neg hoob] at h; injection h
+  · exact absurd ⟨hlo, hhi⟩ hx
+
 end Batch
 
 /-! ### consequences of "stage = per-event map": permutation and split invariance, for every stage of that form -/
